@@ -61,12 +61,12 @@ import (
 
 type family struct {
 	name     string
-	children int                                   // parallel child processes
-	total    func() int                            // number of scenarios (fixed by tier)
-	run      func(cr *childRun, sid int)           // one scenario, inside a child
-	watchdog func(nScen int) time.Duration         // per child
-	crashKey func(site, routine string) string     // violation class for a dead child
-	after    func(run *lib.Run, totalScen int)     // Require()s in the parent
+	children int                               // parallel child processes
+	total    func() int                        // number of scenarios (fixed by tier)
+	run      func(cr *childRun, sid int)       // one scenario, inside a child
+	watchdog func(nScen int) time.Duration     // per child
+	crashKey func(site, routine string) string // violation class for a dead child
+	after    func(run *lib.Run, totalScen int) // Require()s in the parent
 }
 
 func families() []*family {
@@ -98,6 +98,12 @@ func runReactorParts(run *lib.Run) {
 	for _, f := range families() {
 		f.after(run, f.total())
 	}
+	run.Extra("rule_part_b", "seeded scenario lists per reactor family, each scenario in a real p2p.Switch reached over real TCP connections whose remote side is the harness (own secret-connection and node-info handshake, raw msgPackets). bc: a real BlockchainReactor in fast sync, a 6-block source chain with real commits (1-7 validators), 49 mutations of the answer to a block request (every structural nil, wrong height/chain id, altered transactions with stale or fresh data hash, LastCommit for another block/height, exactly 2/3, non-validators, duplicated vote, nil or foreign signatures, forged first block with a second block that does not justify it, absurd counts and part totals, truncated/bit-flipped/length-inflated encodings, absurd status and request heights, raw bytes, unsolicited response floods while a block is executed, a bad block whose sender is dropped during verification) x target height 1/2/3 x honest peer silent or serving during the burst, plus mixed bursts from up to two hostile peers; non-trivial = hostile input delivered and the sync afterwards completed by the honest peer. mp: 16 kinds of hostile TxMessage/raw input against the real mempool reactor with a connected observer peer. pex: hostile listen addresses in the node info and 14 kinds of pexRequest/pexAddrs input against the real PEX reactor and address book. conn: 15 kinds of hostile msgPackets and handshake node-info messages against MConnection/Switch.")
+	run.Assume("part B: a panic below MConnection.recvRoutine is recovered by the connection (peer dropped): allowed and counted with its site; every other panic kills the child process and is a violation keyed by crash site",
+		"part B: the block verifier is what angine.go installs (ValidatorSet.VerifyCommit of a fixed validator set); the executer records, judges with the harness's own tally of precommit signatures, and saves to a real BlockStore",
+		"part B progress bound: after the hostile peers disconnected, an honest peer that answers every request re-announces its height every 250 ms (stand-in for the 10 s status ticker) at most 160 times; the pool's own timers (250 ms request interval, 100 ms sync tick, 15 s peer timeout) run in real time",
+		"part B mempool: the harness's block commit (Mempool.Update with everything reaped) comes 100 ms after the last transaction it removes was seen in the pool, as a commit in a running chain comes at least a consensus round later; an immediate Update is a schedule of the harness's own making that trips go-clist's WaitGroup reuse check in the broadcast routine",
+		"part B: the two-minute address-book save ticker is only waited for in the thorough tier; AddrBook.Stop() blocks forever (BaseService.Stop calls OnStop before closing Quit) and angine.go never starts the book")
 }
 
 // superviseChild runs the scenarios c, c+children, c+2*children, ... of a family
@@ -106,8 +112,8 @@ func runReactorParts(run *lib.Run) {
 func superviseChild(run *lib.Run, self, dir string, f *family, c, n int) {
 	from := c
 	for attempt := 0; from < n; attempt++ {
-		if attempt > 8 {
-			run.Inconclusive(fmt.Sprintf("%s child %d: more than 8 crashes, scenarios from %d on were not run", f.name, c, from))
+		if attempt > 12 {
+			run.Inconclusive(fmt.Sprintf("%s child %d: more than 12 crashes, scenarios from %d on were not run", f.name, c, from))
 			return
 		}
 		out := filepath.Join(dir, fmt.Sprintf("%s-%d-%d.json", f.name, c, attempt))
@@ -311,7 +317,11 @@ func reactorWorker(args []string) {
 		cr.sid = sid
 		fmt.Fprintf(inlog, "BEGIN %d %s\n", sid, fam.name)
 		run.Eval()
+		t0 := time.Now()
 		fam.run(cr, sid)
+		if os.Getenv("C08B_TIMING") != "" {
+			fmt.Printf("scenario %s %d took %v\n", fam.name, sid, time.Since(t0))
+		}
 		cr.mtx.Lock()
 		fmt.Fprintf(inlog, "END %d\n", sid)
 		cr.mtx.Unlock()
@@ -664,7 +674,13 @@ func rawValue(b []byte) interface{} {
 func goroutineDump(filter ...string) string {
 	var buf bytes.Buffer
 	pprof.Lookup("goroutine").WriteTo(&buf, 2)
-	var keep []string
+	// one representative per (state, stack of function names), with a count
+	type rep struct {
+		text string
+		n    int
+	}
+	seen := map[string]*rep{}
+	var order []string
 	for _, g := range strings.Split(buf.String(), "\n\n") {
 		ok := len(filter) == 0
 		for _, f := range filter {
@@ -672,15 +688,39 @@ func goroutineDump(filter ...string) string {
 				ok = true
 			}
 		}
-		if ok {
-			if len(g) > 2500 {
-				g = g[:2500] + "\n..."
-			}
-			keep = append(keep, g)
+		if !ok {
+			continue
 		}
+		lines := strings.Split(g, "\n")
+		state := ""
+		if i := strings.Index(lines[0], "["); i >= 0 {
+			state = strings.SplitN(strings.Trim(lines[0][i:], "[]:"), ",", 2)[0]
+		}
+		sig := state
+		for _, l := range lines[1:] {
+			if !strings.HasPrefix(l, "\t") {
+				if j := strings.LastIndex(l, "("); j > 0 {
+					l = l[:j]
+				}
+				sig += "|" + l
+			}
+		}
+		if r := seen[sig]; r != nil {
+			r.n++
+			continue
+		}
+		if len(g) > 3000 {
+			g = g[:3000] + "\n..."
+		}
+		seen[sig] = &rep{g, 1}
+		order = append(order, sig)
 	}
-	if len(keep) > 40 {
-		keep = keep[:40]
+	var keep []string
+	for _, sig := range order {
+		keep = append(keep, fmt.Sprintf("(%d goroutines like this)\n%s", seen[sig].n, seen[sig].text))
+		if len(keep) >= 30 {
+			break
+		}
 	}
 	return strings.Join(keep, "\n\n")
 }
